@@ -143,6 +143,10 @@ pub struct Mem {
     pub pi: Vec<F>,
     pub proof: Vec<u8>,
     pub desc: String,
+    /// `Some((key of the honest base member, a))`: the proof is the base proof with its final
+    /// opening point π replaced by `π + a·G`. No verifier challenge depends on π, so the guard's
+    /// defect is `a·(τ − x₃)·G`: LINEAR in `a` for a fixed base proof.
+    pub shift: Option<(Vec<u8>, F)>,
 }
 
 #[derive(Clone)]
@@ -270,7 +274,7 @@ impl Real {
     pub fn honest(&self, rel: usize, j: usize) -> Mem {
         let r = &self.rels[rel];
         let (pi, proof) = &r.honest[j % r.honest.len()];
-        Mem { vk_of: rel, pi: pi.clone(), proof: proof.clone(), desc: format!("{}{}", r.name, j % r.honest.len()) }
+        Mem { vk_of: rel, pi: pi.clone(), proof: proof.clone(), desc: format!("{}{}", r.name, j % r.honest.len()), shift: None }
     }
 
     fn key(m: &Mem) -> Vec<u8> {
@@ -286,13 +290,40 @@ impl Real {
     /// Pseudo-defect of an invalid member in the one-dimensional model: a non-zero scalar that
     /// is a function of the member's identity (equal members, equal defects).
     fn pseudo_defect(m: &Mem) -> F {
-        let h = blake2b_simd::blake2b(&Self::key(m));
-        let d = crate::rec::sample_fq(h.as_bytes());
-        if d == F::ZERO {
-            F::ONE
-        } else {
-            d
+        let of = |bytes: &[u8]| {
+            let h = blake2b_simd::blake2b(bytes);
+            let d = crate::rec::sample_fq(h.as_bytes());
+            if d == F::ZERO {
+                F::ONE
+            } else {
+                d
+            }
+        };
+        match &m.shift {
+            // members of one π-shift family have proportional defects
+            Some((base, a)) => {
+                let mut k = b"pi-shift-family".to_vec();
+                k.extend_from_slice(base);
+                *a * of(&k)
+            }
+            None => of(&Self::key(m)),
         }
+    }
+
+    /// The honest member `m` with its final opening point π replaced by `π + a·G`.
+    pub fn shifted(&self, m: &Mem, a: F) -> Mem {
+        use group::GroupEncoding;
+        assert!(m.shift.is_none());
+        let n = m.proof.len();
+        let mut repr = <G as GroupEncoding>::Repr::default();
+        repr.as_mut().copy_from_slice(&m.proof[n - 48..]);
+        let pi: G = Option::from(G::from_bytes(&repr)).expect("π of an honest proof");
+        let pi2 = pi + G::generator() * a;
+        let mut x = m.clone();
+        x.proof[n - 48..].copy_from_slice(pi2.to_bytes().as_ref());
+        x.shift = Some((Self::key(m), a));
+        x.desc = format!("{}~pi+{}G", m.desc, fe_hex(&a));
+        x
     }
 
     /// Everything the batching code can see of one member, obtained through the public
@@ -483,9 +514,36 @@ impl Real {
         ctx.case(kind, true, line.trim_end(), &format!("batch={s} each={each_s}"));
     }
 
+    /// The batching challenge `batch_verify` draws on this batch (recording hash), if it gets
+    /// that far.
+    pub fn learn_r(&self, ms: &[Mem]) -> Option<F> {
+        rec::reset(None);
+        let _ = self.call_batch::<RecH>(ms.len(), ms.len(), ms.len(), ms);
+        rec::take_log().iter().find_map(|(id, e)| match (id, e) {
+            (0, Ev::Squeeze(o)) => Some(rec::sample_fq(o)),
+            _ => None,
+        })
+    }
+
+    /// The attack that works iff the batching challenge does not depend on member `j`: all
+    /// members valid except `i` (π shifted by `G`); learn `r`; replace member `j` by the π-shift
+    /// that cancels member `i` AT THAT `r` (`a_j = −r^(j−i)`); submit. With a challenge that
+    /// absorbs every member the second run draws a different `r` and rejects.
+    pub fn adaptive_attack(&mut self, ctx: &mut Ctx, fill: &[Mem], base: &Mem, i: usize, j: usize) {
+        assert!(i != j);
+        let mut ms = fill.to_vec();
+        ms[i] = self.shifted(base, F::ONE);
+        ms[j] = self.shifted(base, F::ZERO);
+        let Some(r) = self.learn_r(&ms) else { return };
+        let a_j = if j > i { -r.pow([(j - i) as u64]) } else { -r.invert().unwrap_or(F::ONE).pow([(i - j) as u64]) };
+        ms[j] = self.shifted(base, a_j);
+        self.batch(ctx, "batch:adaptive-attack", &ms);
+    }
+
     // ------------------------------------------------------------------ invalid members
     pub fn corrupt(&self, rng: &mut ChaCha8Rng, m: &Mem) -> Mem {
         let mut x = m.clone();
+        x.shift = None;
         let pos = rng.gen_range(0..x.proof.len());
         x.proof[pos] ^= 1 << rng.gen_range(0..8);
         x.desc = format!("{}~flip{}", m.desc, pos);
@@ -495,6 +553,7 @@ impl Real {
     /// probability, the guard becomes invalid).
     pub fn corrupt_eval(&self, rng: &mut ChaCha8Rng, m: &Mem) -> Mem {
         let mut x = m.clone();
+        x.shift = None;
         // the last 48 bytes are π, before that q_evals (32 bytes each)
         let pos = x.proof.len() - 48 - 1 - rng.gen_range(0..24);
         x.proof[pos] ^= 1 << rng.gen_range(0..6);
@@ -503,6 +562,7 @@ impl Real {
     }
     pub fn wrong_pi(&self, rng: &mut ChaCha8Rng, m: &Mem) -> Mem {
         let mut x = m.clone();
+        x.shift = None;
         let j = rng.gen_range(0..x.pi.len());
         x.pi[j] += F::from(rng.gen_range(1..5u64));
         x.desc = format!("{}~pi{}", m.desc, j);
@@ -510,6 +570,7 @@ impl Real {
     }
     pub fn wrong_vk(&self, rng: &mut ChaCha8Rng, m: &Mem) -> Mem {
         let mut x = m.clone();
+        x.shift = None;
         let others: Vec<usize> = (0..self.rels.len()).filter(|i| *i != m.vk_of).collect();
         x.vk_of = *others.choose(rng).unwrap();
         x.desc = format!("{}~vk{}", m.desc, self.rels[x.vk_of].name);
@@ -517,6 +578,7 @@ impl Real {
     }
     pub fn truncated(&self, rng: &mut ChaCha8Rng, m: &Mem) -> Mem {
         let mut x = m.clone();
+        x.shift = None;
         let cut = rng.gen_range(1..40);
         x.proof.truncate(x.proof.len() - cut);
         x.desc = format!("{}~cut{}", m.desc, cut);
@@ -524,6 +586,7 @@ impl Real {
     }
     pub fn trailing(&self, rng: &mut ChaCha8Rng, m: &Mem) -> Mem {
         let mut x = m.clone();
+        x.shift = None;
         for _ in 0..rng.gen_range(1..4) {
             x.proof.push(rng.gen());
         }
@@ -532,6 +595,7 @@ impl Real {
     }
     pub fn pi_len(&self, rng: &mut ChaCha8Rng, m: &Mem) -> Mem {
         let mut x = m.clone();
+        x.shift = None;
         if rng.gen_bool(0.5) {
             x.pi.push(F::ONE);
         } else {
@@ -545,6 +609,7 @@ impl Real {
         let r = &self.rels[m.vk_of];
         let j = r.honest.iter().position(|(pi, _)| *pi != m.pi).unwrap_or(0);
         let mut x = m.clone();
+        x.shift = None;
         x.proof = r.honest[j].1.clone();
         x.desc = format!("{}~proofof{}", m.desc, j);
         x
